@@ -8,7 +8,7 @@ import re
 from bpsa.facts import callee_decl, callee_name
 from bpsa.normal import canon
 from bpsa.terms import walk, short, TERM_IDX, is_term
-from . import witness
+from . import witness, roles
 
 LEVEL_TEXT = ('Static ownership analysis over MIR (drop-elaborated Drop terminators, moves into external callees) with a backward '
               'secret-taint on reconstructed value terms, plus Drop/Zeroize impl field coverage and ZeroizeOnDrop witnesses. Decides that every '
@@ -252,6 +252,9 @@ def run(ctx):
     vc = msm.verifier_core(ctx, 'R-C20-2')
     if vc is not None:
         role_name[vc.path] = '<verifier-core>'
+        # the recovery block may live in a private helper of the core: the body that hands the mask vector to ExtendedMask::assign
+        for (fr, abb, at, aa) in ctx.flat_calls(vc, lambda n, t: n.endswith('ExtendedMask::assign'), stop=roles.nonce_fns(ctx)):
+            role_name[fr.body.path] = '<verifier-core>'
     for b in facts.fns():
         if b.impl_trait in ('std::fmt::Debug', 'std::fmt::Display'):
             continue
@@ -403,7 +406,10 @@ def no_realloc(ctx, taint, wiping_adts):
             for itb in loop_bounds:
                 # a range(0, N) / take(N) / collection whose length is part of the capacity expression
                 bits = [canon(x) for x in walk(itb) if x.tag in ('field', 'param') or (x.tag == 'call' and x[1].split('::')[-1] == 'len')]
-                if not any(bt in ccap for bt in bits if len(bt) > 2):
+                # an explicit bound: take(N) or 0..N with N the capacity itself
+                explicit = [canon(x.args[-1]) for x in walk(itb) if x.tag == 'adapt' and x[1] == 'take'] + \
+                           [canon(x[2]) for x in walk(itb) if x.tag == 'range' and x[1].tag == 'const' and x[1][1] == 0]
+                if not any(bt in ccap for bt in bits if len(bt) > 2) and ccap not in explicit:
                     ok = False
             rep.check(ok, 'R-C20-3', key, 'secret vector is created with_capacity(%s), which covers its filling loops' % ccap[:80],
                       'secret vector is created with_capacity(%s) but filled by loops over %s: it may reallocate' % (ccap[:80], [canon(x)[:60] for x in loop_bounds]), ctx.where(b, ctor_bb))
